@@ -553,7 +553,7 @@ func providerSig(c *spec.Case, p *spec.Prov, from string) (params, results strin
 		if p.Variadic && i == len(p.Params)-1 {
 			ex = "..." + c.Expr(c.T(t).Elem, from)
 		}
-		ps = append(ps, fmt.Sprintf("a%d %s", i, ex))
+		ps = append(ps, fmt.Sprintf("%s %s", paramName(p, i), ex))
 	}
 	var rs []string
 	for _, t := range p.Results {
@@ -616,11 +616,18 @@ func mkCall(c *spec.Case, t spec.TypeID, from, arg string) string {
 	return helperRef(c, t, from, "mk") + "(" + arg + ")"
 }
 
+func paramName(p *spec.Prov, i int) string {
+	if i == 0 && p.Param0Name != "" {
+		return p.Param0Name
+	}
+	return fmt.Sprintf("a%d", i)
+}
+
 func providerBody(c *spec.Case, p *spec.Prov, from string) string {
 	var sb strings.Builder
 	var hs []string
 	for i, t := range p.Params {
-		hs = append(hs, vhCall(c, t, from, fmt.Sprintf("a%d", i)))
+		hs = append(hs, vhCall(c, t, from, paramName(p, i)))
 	}
 	args := fmt.Sprint(p.ID)
 	if len(hs) > 0 {
